@@ -51,9 +51,13 @@ def subChunks (i : Nat) : List Sub → Nat → List Chunk
   | [], _ => []
   | s :: ss, j => ⟨.sub i j, s.bytes.length⟩ :: subChunks i ss (j + 1)
 
+/-- the chunks of lookup `i`: its header and its subtables -/
+def lookupChunks (i : Nat) (l : Lookup) : List Chunk :=
+  ⟨.table i, hdrLen l⟩ :: subChunks i l.subs 0
+
 def tableChunks : List Lookup → Nat → List Chunk
   | [], _ => []
-  | l :: ls, i => ⟨.table i, hdrLen l⟩ :: (subChunks i l.subs 0 ++ tableChunks ls (i + 1))
+  | l :: ls, i => lookupChunks i l ++ tableChunks ls (i + 1)
 
 def chunksOf (ll : List Lookup) : List Chunk :=
   ⟨.header, 2 + 2 * ll.length⟩ :: tableChunks ll 0
@@ -230,31 +234,41 @@ structure SpecLookup where
   subPos : List Nat
 deriving DecidableEq, Repr
 
-def specLookup (b : Bytes) (extType : Nat) (lp : Nat) : Option SpecLookup := do
-  let tp ← u16at b lp
-  let flags ← u16at b (lp + 2)
-  let cnt ← u16at b (lp + 4)
-  let offs ← (List.range cnt).mapM fun j => u16at b (lp + 6 + 2 * j)
-  let mfs ← if flags / 16 % 2 == 1 /- 0x0010 -/ then (u16at b (lp + 6 + 2 * cnt)).map some else some none
-  if tp == extType then
-    let recs ← offs.mapM fun o => do
-      let p := lp + o
-      let fmt ← u16at b p
-      let et ← u16at b (p + 2)
-      let hi ← u16at b (p + 4)
-      let lo ← u16at b (p + 6)
-      if fmt == 1 then some (et, p + (hi * 65536 + lo)) else none
-    match recs with
-    | [] => some ⟨tp, flags, mfs, []⟩
-    | (et, _) :: _ =>
-      if recs.all (·.1 == et) && et != extType then some ⟨et, flags, mfs, recs.map (·.2)⟩ else none
-  else
-    some ⟨tp, flags, mfs, offs.map (lp + ·)⟩
+/-- `n` consecutive 16-bit words starting at byte position `p` -/
+def u16s (b : Bytes) (p n : Nat) : Option (List Nat) :=
+  (List.range n).mapM fun j => u16at b (p + 2 * j)
 
-def specRead (b : Bytes) (extType : Nat) : Option (List SpecLookup) := do
-  let cnt ← u16at b 0
-  let offs ← (List.range cnt).mapM fun i => u16at b (2 + 2 * i)
-  offs.mapM (specLookup b extType)
+/-- an extension record at `p`: (extensionLookupType, absolute position of the extension subtable) -/
+def specExtRec (b : Bytes) (p : Nat) : Option (Nat × Nat) :=
+  match u16at b p, u16at b (p + 2), u16at b (p + 4), u16at b (p + 6) with
+  | some fmt, some et, some hi, some lo => if fmt == 1 then some (et, p + (hi * 65536 + lo)) else none
+  | _, _, _, _ => none
+
+def specLookup (b : Bytes) (extType : Nat) (lp : Nat) : Option SpecLookup :=
+  match u16at b lp, u16at b (lp + 2), u16at b (lp + 4) with
+  | some tp, some flags, some cnt =>
+    match u16s b (lp + 6) cnt,
+        (if flags / 16 % 2 == 1 /- 0x0010 -/ then (u16at b (lp + 6 + 2 * cnt)).map some else some none) with
+    | some offs, some mfs =>
+      if tp == extType then
+        match offs.mapM (fun o => specExtRec b (lp + o)) with
+        | some [] => some ⟨tp, flags, mfs, []⟩
+        | some ((et, p) :: recs) =>
+          if ((et, p) :: recs).all (·.1 == et) && et != extType then
+            some ⟨et, flags, mfs, ((et, p) :: recs).map (·.2)⟩
+          else none
+        | none => none
+      else some ⟨tp, flags, mfs, offs.map (lp + ·)⟩
+    | _, _ => none
+  | _, _, _ => none
+
+def specRead (b : Bytes) (extType : Nat) : Option (List SpecLookup) :=
+  match u16at b 0 with
+  | some cnt =>
+    match u16s b 2 cnt with
+    | some offs => offs.mapM (specLookup b extType)
+    | none => none
+  | none => none
 
 /-- what a lookup is expected to read back as -/
 def expected (l : Lookup) : Nat × Nat × Option Nat := (l.type, l.flags, if useMFS l then some l.mfs else none)
